@@ -6,7 +6,7 @@ import ast
 
 class Contract:
     def __init__(self, key, requires=(), ensures=(), yields=(), raises=None, raises_iff=(), loops=None,
-                 props=(), inherits=None, unfold=(), lemmas=(), note="", trusted=False, decreases=None, abstract=False, defines=(), heavy=False):
+                 props=(), inherits=None, unfold=(), lemmas=(), note="", trusted=False, decreases=None, abstract=False, defines=(), heavy=False, hide=(), depth=0):
         self.key = key  # "module:Class.method"
         self.requires = list(requires)
         self.ensures = list(ensures)
@@ -17,7 +17,9 @@ class Contract:
         self.props = list(props)  # property ids this contract carries
         self.inherits = inherits
         self.unfold = list(unfold)
+        self.hide = list(hide)  # non-recursive spec functions kept uninterpreted for this contract (opaque / reveal)
         self.lemmas = list(lemmas)
+        self.depth = depth  # levels of definitional unfolding per saturation round (0: engine default)
         self.note = note
         self.trusted = trusted  # assumed, not verified (listed in trusted_base)
         self.decreases = decreases
